@@ -580,6 +580,34 @@ func ruleK(c *Ctx, k1, k2, k3 string) {
 			r.Finding(k2, "AddKeyValueChild/rekeys", c.P.pos(akv.Pos()), fmt.Sprintf("AddKeyValueChild does not unconditionally re-parent (%d SetParent) and re-key (%d Key stores) the entry it adds", setParent, keyStore))
 		}
 	}
+	// K2d: what the positioning primitives add is a full Copy() of what they are given
+	for _, name := range []string{"CandidateNode.AddChild", "CandidateNode.AddKeyValueChild"} {
+		fn := c.libFunc(name)
+		if fn == nil {
+			r.Fatal("anchor missing: %s", name)
+			continue
+		}
+		eachInstr(fn, func(ins ssa.Instruction) {
+			st, ok := ins.(*ssa.Store)
+			if !ok || contentAddrBase(st.Addr) == nil {
+				return
+			}
+			srcs := elementSources(fn, st.Val, nil, 0, map[ssa.Value]bool{})
+			n := 0
+			for _, s := range srcs {
+				if s.kind == "child-of" {
+					continue
+				}
+				n++
+				key := fmt.Sprintf("%s/adds#%d", funcKey(fn), n)
+				if s.kind == "copy" && strings.Contains(s.desc, "a Copy()") {
+					r.Discharge(k2, key, c.P.pos(s.pos), "the added node is a full Copy() of the argument")
+				} else {
+					r.Finding(k2, key, c.P.pos(s.pos), "the node added to the container is "+s.desc+", not a full Copy() of the argument: children of a complex key / value are dropped, or the argument itself is shared with its old container")
+				}
+			}
+		})
+	}
 	// K2c: CopyAsReplacement takes Parent and Key from the node it replaces
 	car, cs := c.sumOf("CandidateNode.CopyAsReplacement")
 	if cs == nil {
